@@ -18,7 +18,7 @@ RULE = ("MazeDatasetConfig over the cross product generator x kwargs (JSON-nativ
         "load(json.loads(json.dumps(serialize()))) compared field by field (same generator function object, kwargs, endpoint "
         "options with coordinate lists restored as lists of tuples, seed, filters with args restored as tuples); stable_hash_cfg "
         "and to_fname recomputed in fresh interpreter processes with PYTHONHASHSEED in {0,1,31337,random}; every pair of "
-        "configurations differing in exactly one listed field must hash differently; to_fname() compared with "
+        "configurations differing in exactly one listed field must hash differently (and compare unequal unless the field is n_mazes); after a field is updated in place, hash and file name must equal those of a fresh config with that content; a reloaded config must compare equal with an empty diff; to_fname() compared with "
         "sanitize(name)-g{n}-n{short(n_mazes)}-a_{gen}-h{hash mod 10^5}; MazeDatasetCollectionConfig likewise. "
         "non-trivial & distinct = distinct configurations with non-default kwargs/options/filters, plus distinct one-field-different pairs")
 ASSUMPTIONS = ["muutils sanitize_fname / shorten_numerical_to_str define the two formatted parts of the file name (trusted dependency)",
@@ -27,7 +27,7 @@ NSHARDS = {"quick": 16, "thorough": 16}
 FIELDS = ["name", "grid_n", "n_mazes", "maze_ctor", "maze_ctor_kwargs", "endpoint_kwargs", "seed", "applied_filters"]
 THRESHOLDS = {"quick": {"c18:roundtrip": 2000, "c18:roundtrip-json": 2000, "c18:hash-cross-process": 2000, "c18:hashseeds": 3,
                         **{f"c18:pair:{f}": 100 for f in FIELDS}, "c18:fname": 2000, "c18:collection-cfg": 50,
-                        "c18:tuples-restored:endpoint": 300, "c18:tuples-restored:filters": 300, "c18:gen:gen_dfs": 1,
+                        "c18:in-place": 500, "c18:eq": 500, "c18:tuples-restored:endpoint": 300, "c18:tuples-restored:filters": 300, "c18:gen:gen_dfs": 1,
                         "c18:gen:gen_wilson": 1, "c18:gen:gen_percolation": 1, "c18:gen:gen_dfs_percolation": 1, "c18:gen:gen_prim": 1}}
 THRESHOLDS["thorough"] = dict(THRESHOLDS["quick"])
 ANCHORS = ["maze_dataset.dataset.maze_dataset:_load_maze_ctor", "maze_dataset.dataset.dataset:_load_applied_filters",
@@ -223,6 +223,56 @@ def run(ctx):
                 ctx.nontrivial("pair", spec["key"], field)
                 ctx.check(h1 != h2, f"C18/hash-does-not-discriminate/{field}", f"both hash to {h1}; differing field {field}: {spec[field]!r} vs {s2[field]!r}",
                           dict(spec=spec, spec2=s2, field=field))
+    # identity follows the content: (a) repeated calls agree, (b) after the fields the library itself updates in place
+    # (n_mazes via update_self_config, applied_filters via the filter wrapper; also plain attribute assignment of the others:
+    # the config is an ordinary mutable dataclass) hash and file name equal those of a freshly built config with that content,
+    # (c) == / diff between a config and its reload, and between one-field-different configs
+    for t, spec in enumerate(specs[: (len(specs) if not ctx.quick else 150)]):
+        rng = ctx.sub_rng("inplace", spec["key"])
+        field = FIELDS[t % len(FIELDS)]
+        s2 = mutate(spec, field, rng)
+        if s2 == spec:
+            continue
+        case = dict(spec=spec, field=field, spec2=s2)
+        with ctx.guard("C18/in-place", case), warnings.catch_warnings():
+            warnings.simplefilter("ignore")
+            from maze_dataset import MazeDatasetConfig
+            from maze_dataset.generation.generators import GENERATORS_MAP
+
+            cfg = make_cfg(spec)
+            h_a, f_a = int(cfg.stable_hash_cfg()), cfg.to_fname()
+            ctx.check(int(cfg.stable_hash_cfg()) == h_a and cfg.to_fname() == f_a, "C18/hash-or-fname-not-repeatable", "", case)
+            fresh = make_cfg(s2)
+            if field == "maze_ctor":
+                cfg.maze_ctor = GENERATORS_MAP[s2["maze_ctor"]]
+            elif field == "endpoint_kwargs":
+                cfg.endpoint_kwargs = fresh.endpoint_kwargs
+            elif field == "applied_filters":
+                # the way the filter wrapper records provenance: appended / replaced on the existing object
+                cfg.applied_filters = list(fresh.applied_filters) if t % 2 else cfg.applied_filters[:0] + list(fresh.applied_filters)
+            elif field == "maze_ctor_kwargs":
+                cfg.maze_ctor_kwargs = copy.deepcopy(s2["maze_ctor_kwargs"])
+            else:
+                setattr(cfg, field, s2[field])
+            ctx.ev(); ctx.tally("c18:in-place"); ctx.tally(f"c18:in-place:{field}")
+            h_b, f_b = int(cfg.stable_hash_cfg()), cfg.to_fname()
+            ctx.check(h_b == int(fresh.stable_hash_cfg()), f"C18/hash-stale-after-in-place-update/{field}",
+                      f"after setting {field} in place the hash is {h_b}, a fresh config with the same content hashes to {int(fresh.stable_hash_cfg())} (before: {h_a})", case)
+            ctx.check(f_b == fresh.to_fname(), f"C18/fname-stale-after-in-place-update/{field}", f"{f_b!r} vs fresh {fresh.to_fname()!r}", case)
+            # equality and diff
+            orig = make_cfg(spec)
+            back = MazeDatasetConfig.load(json.loads(json.dumps(orig.serialize())))
+            ctx.tally("c18:eq")
+            try:
+                ctx.check((back == orig) is True and (orig == back) is True and not (back != orig), "C18/reloaded-config-not-equal", f"diff={orig.diff(back)!r}"[:600], case)
+                ctx.check(not orig.diff(back), "C18/reloaded-config-has-diff", f"diff={orig.diff(back)!r}"[:600], case)
+            except Exception as e:  # noqa: BLE001
+                ctx.violation(f"C18/config-eq-raises/{type(e).__name__}", repr(e)[:400], case)
+            if field != "n_mazes":  # n_mazes is documented as excluded from comparison
+                try:
+                    ctx.check((fresh == orig) is False, f"C18/different-configs-compare-equal/{field}", f"{spec[field]!r} vs {s2[field]!r}", case)
+                except Exception as e:  # noqa: BLE001
+                    ctx.violation(f"C18/config-eq-raises/{type(e).__name__}", repr(e)[:400], case)
     # collection configs
     for t in range(0, min(len(specs) - 3, 60 if ctx.quick else 600), 3):
         members = specs[t: t + 1 + t % 3]
